@@ -34,6 +34,30 @@ CHECKS.update({
    note="gaps in [T, T+3+rapid-event-delay] accept both outcomes (queue latency of the press that starts the next dance), everything else is exact."),
 })
 
+CHECKS.update({
+ "C08": dict(cat="exploration", ref="D5 C08", tech="deterministic simulation with a reference flattener of the macro step list (seeded config x trigger schedule search incl. cancel/re-trigger/concurrent macros)",
+   text="The real Kanata's OS output for generated macros must equal, step for step and in order, the event list of a reference flattener written from the docs; undisturbed inter-step delays are checked tick for tick, cancel variants end with every key released.",
+   note="two genuine defect classes are listed in known_findings.json and printed as KNOWN-FINDING (a macro's custom step overtaken by later steps; > 4 concurrent macros evict a running one leaving its keys down). Population 'concurrent > 4' checks the end state only."),
+ "C09": dict(cat="exploration", ref="D5 C09", tech="deterministic simulation over press schedules at the chord-timeout boundary with a chord-table reference + conservation (accounting) invariant",
+   text="Chord decisions at the timeout boundary are compared with a chord-table reference, plus a conservation invariant: every physical press is accounted for by exactly one chord marker or one single-key marker, in press order.",
+   note="v1 'within' is < T and v2 is <= T in the pinned tree (convention, DESIGN.md); a participant re-pressed within 15 ms of its own release is outside the accounting precondition; sampling of permutations, not all of them."),
+ "C10": dict(cat="exploration", ref="D5 C10", tech="deterministic simulation with a reference evaluator of switch/fork conditions over recorded key, layer and timing history",
+   text="The markers output by the real switch/fork must equal those predicted by a reference evaluator of the boolean expression over an independently tracked reference state (keys down, key/input history with ages, layers).",
+   note="key-timing comparisons exactly at the boundary tick are not judged (lt is <=, gt is > in the pinned tree: deliberate convention); lossy age ranges follow the documented u16/8-bit encodings."),
+ "C13": dict(cat="exploration", ref="D5 C13", tech="deterministic simulation with an override reference model (containment + order sensitivity) over seeded press/release orders",
+   text="The OS output sequence (ms, kind, key) of the real Kanata must equal that of an override reference model applying the stated rule over all sampled press/release orders.",
+   note="override matching in the pinned tree is order dependent (modifier pressed after the key does not substitute): genuine deviation from the stated rule, recorded as a known finding with tag modifier-pressed-after-key; all other orders are judged exactly."),
+ "C14": dict(cat="exploration", ref="D5 C14", tech="deterministic simulation with injected OS auto-repeat events at arbitrary instants (incl. while tap-hold/chord undecided), soundness+completeness oracle",
+   text="OS auto-repeat events are injected at arbitrary instants; soundness (0/1 output, only for a key that is down at the OS) and completeness (held key that put a still-down output down gets exactly one repeat, non-modifier preferred) are checked on the real Kanata.",
+   note="macros, sequences, caps-word and dynamic macros are outside the fragment; the allow-hardware-repeat gate (event_loop) is modelled by the feeder; two genuine defect classes (repeat chosen from kanata's internal list rather than OS state with unmod/overrides; modifier repeated instead of chord key) are known findings."),
+ "C18": dict(cat="exploration", ref="D5 C18", tech="deterministic simulation of virtual-key operations (press/release/tap/toggle, hold-for-duration, on-idle) at timer boundaries with a reference state model",
+   text="Virtual-key operations from every trigger form are compared with a boolean reference state per virtual key; hold-for-duration and on-idle timers are checked at their exact ticks.",
+   note="TCP-style operations are applied between ticks on the single-thread stepper; interleavings with the real TCP server thread are not explored here."),
+ "C19": dict(cat="exploration", ref="D5 C19", tech="deterministic simulation of dynamic-macro record/play with reconstruction oracle (recorded items vs replayed trace), seeded histories incl. nested play and limits",
+   text="What is fed back during replay is reconstructed from the typed history (identity population) or compared differentially with a fresh instance typed live (remap population); self-play and length limits must terminate with nothing stuck.",
+   note="the one-event lag between a physical input and its recorded item is treated as convention; replay timing is compared up to queue latency."),
+})
+
 NA = {
  "C11": "pure function of a 16-bit code / key name / config (discriminant tables, a transmute, set construction): no schedule, clock, fault or interleaving for a simulator to vary (DESIGN.md D7)",
 }
@@ -42,6 +66,10 @@ def main():
     head = subprocess.run(["git","-C","/repo","log","--format=%H %s"],capture_output=True,text=True).stdout.strip().splitlines()
     hooks=[l.split()[0] for l in head if "verif hook" in l]
     checks=[]
+    try:
+        rules=json.loads(subprocess.run(["/verif/target/debug/ksim","rules"],capture_output=True,text=True).stdout)
+    except Exception:
+        rules={}
     for pid in IDS:
         if pid in CHECKS:
             c=CHECKS[pid]
@@ -52,7 +80,7 @@ def main():
               "evidence_file": f"/verif/evidence/{pid}.json",
               "replay_cmd_template": f"./check {pid} --replay {{path}}",
               "engine": "ksim",
-              "level_claimed": {"category": c["cat"], "text": c["text"], "design_ref": c["ref"]},
+              "level_claimed": {"category": c["cat"], "text": c["text"] + (" Explored space as stated by the checker: " + rules[pid] if pid in rules else ""), "design_ref": c["ref"]},
               "level_note": c["note"],
               "technique": c["tech"],
             })
